@@ -88,6 +88,13 @@ TAlias   == E.k = "AliasWrite" /\ Post /\ Alias
 \* NextRef names the reference it returned, CopyRemaining its bits and references
 TCopyRem == /\ E.k = "CopyRemaining" /\ Post /\ UNCHANGED bvars
             /\ StrToBits(E.out) = CopyRemainingOut.bits /\ E.outrefs = CopyRemainingOut.refs
+\* byte form: GetTopUppedArray gives TopUpBytes(s); SetTopUppedArray of those bytes (told whether they are whole bytes) gives s back
+\* (when the completion tag does not fit below the CAPACITY - a 1022- or 1023-bit cell, a full 12-bit string - the library refuses;
+\* the property's clauses do not speak about this form, so that corner is left free: observation, patches/0005)
+TTopUp == /\ E.k = "TopUp" /\ Post /\ UNCHANGED bvars
+          /\ IF Len(s) % 8 # 0 /\ cap - Len(s) < 8 - (Len(s) % 8)
+               THEN Ok => (HexToBytes(E.out) = TopUpBytes(s) /\ StrToBits(E.back) = s)
+               ELSE Ok /\ HexToBytes(E.out) = TopUpBytes(s) /\ StrToBits(E.back) = s
 \* text form: the canonical Fift hex of s, and parsing it gives s back
 TFift == /\ E.k = "FiftHex" /\ Post /\ UNCHANGED bvars
          /\ E.out = FiftHex(s) /\ Ok /\ StrToBits(E.back) = s
@@ -99,7 +106,7 @@ TReset == /\ E.k = "Reset" /\ l = seg /\ New(E.cap)
 
 TraceNext == /\ l <= N
              /\ (l # seg => Trace[l].k # "Reset")      \* a segment ends at the next Reset
-             /\ (TReset \/ TWrite \/ TRead \/ TReadUnary \/ TResetCounter \/ TAddRef \/ TNextRef \/ TFift \/ TSetBit \/ TAlias \/ TCopyRem)
+             /\ (TReset \/ TWrite \/ TRead \/ TReadUnary \/ TResetCounter \/ TAddRef \/ TNextRef \/ TFift \/ TSetBit \/ TAlias \/ TCopyRem \/ TTopUp)
              /\ Consume
 TraceSpec == TraceInit /\ [][TraceNext]_tvars
 
